@@ -23,8 +23,16 @@ struct G {
     weighted: bool,              // false: weights = None (every weight is 1)
 }
 
+thread_local! {
+    /// node ids of the graph under test when they are not the default 100 + 7*i
+    /// (graphs built in a GraphStore get the store's ids)
+    static IDS: std::cell::RefCell<Option<Vec<u64>>> = std::cell::RefCell::new(None);
+}
 fn node_id(i: usize) -> u64 {
-    100 + 7 * i as u64
+    IDS.with(|t| match &*t.borrow() {
+        Some(v) => v[i],
+        None => 100 + 7 * i as u64,
+    })
 }
 
 impl G {
@@ -323,7 +331,7 @@ fn canon(n: usize, node_component: &HashMap<u64, usize>, components: &HashMap<us
     let mut b: Vec<Vec<usize>> = components
         .values()
         .map(|l| {
-            let mut v: Vec<usize> = l.iter().map(|id| ((id - 100) / 7) as usize).collect();
+            let mut v: Vec<usize> = l.iter().map(|id| idx_of(*id)).collect();
             v.sort();
             v
         })
@@ -336,7 +344,10 @@ fn canon(n: usize, node_component: &HashMap<u64, usize>, components: &HashMap<us
 }
 
 fn idx_of(id: u64) -> usize {
-    ((id - 100) / 7) as usize
+    IDS.with(|t| match &*t.borrow() {
+        Some(v) => v.iter().position(|x| *x == id).unwrap_or(usize::MAX),
+        None => ((id - 100) / 7) as usize,
+    })
 }
 
 /// is `p` a path of the graph from s to t whose cost can be `cost` (some choice of parallel edges)?
@@ -374,13 +385,22 @@ fn g_path(o: &Option<(Vec<usize>, u64)>) -> String {
 /// Run everything on one graph. `pairs`: the (source, target) pairs to query.
 /// `to_coq`: also emit a case for the model.
 fn run_graph(out: &mut Out, g: &G, pairs: &[(usize, usize)], to_coq: bool, tag: &str) {
+    run_graph_on(out, g, pairs, to_coq, tag, None)
+}
+
+/// `eng`: the graph lives in a GraphStore; the view is what `build_view` projects for the given
+/// label / relationship type / weight property, and the CALL algo.* procedures are run as well
+fn run_graph_on(out: &mut Out, g: &G, pairs: &[(usize, usize)], to_coq: bool, tag: &str, eng: Option<&Engine>) {
     let idx = out.next_index();
     if to_coq && !out.wants(idx) {
         out.skip();
         return;
     }
     let human = format!("{} {} pairs={}", tag, g.human(), pairs.len());
-    let view = g.view();
+    let view = match eng {
+        Some(e) => samyama::algo::build_view(e.store, e.label, e.etype, e.prop),
+        None => g.view(),
+    };
     let r = reference(g);
     let es = g.edges();
     let n = g.n;
@@ -574,6 +594,9 @@ fn run_graph(out: &mut Out, g: &G, pairs: &[(usize, usize)], to_coq: bool, tag: 
         pobs.push(PairObs { s, t, bfs: bo, dij: dobs, flow: fo });
     }
     out.count_n("pairs", pairs.len() as u64);
+    if let Some(e) = eng {
+        engine_checks(out, e, g, &wcc, &scc, tri, &lu.coefficients, mst_total, &pobs, &mut bad);
+    }
 
     if !to_coq {
         out.count("rust_only_graphs");
@@ -610,6 +633,214 @@ fn run_graph(out: &mut Out, g: &G, pairs: &[(usize, usize)], to_coq: bool, tag: 
     let i = out.case(term, human.clone(), !es.is_empty());
     if !bad.is_empty() {
         out.fail(i, &human, &bad.join(" | "), None);
+    }
+}
+
+// ---------------- CALL algo.* through the query engine ----------------
+struct Engine<'a> {
+    store: &'a samyama::graph::GraphStore,
+    label: Option<&'a str>,
+    etype: Option<&'a str>,
+    prop: Option<&'a str>,
+}
+
+fn call(store: &samyama::graph::GraphStore, q: &str) -> Result<samyama::query::RecordBatch, String> {
+    samyama::query::QueryEngine::new().execute(q, store).map_err(|e| format!("{} failed: {}", q, e))
+}
+
+fn rec_float(r: &samyama::query::Record, k: &str) -> Option<f64> {
+    r.get(k).and_then(|v| v.as_property()).and_then(|p| p.as_float().or_else(|| p.as_integer().map(|i| i as f64)))
+}
+fn rec_node(r: &samyama::query::Record, k: &str) -> Option<u64> {
+    r.get(k).and_then(|v| v.as_node()).map(|(id, _)| id.as_u64())
+}
+
+/// (node id -> component id) from `CALL algo.wcc/scc ... YIELD node, componentId`
+fn call_components(store: &samyama::graph::GraphStore, q: &str, n: usize) -> Result<Vec<Vec<usize>>, String> {
+    let b = call(store, q)?;
+    let mut nc: HashMap<u64, usize> = HashMap::new();
+    let mut comps: HashMap<usize, Vec<u64>> = HashMap::new();
+    for r in &b.records {
+        let id = rec_node(r, "node").ok_or_else(|| format!("{}: row without node", q))?;
+        let c = rec_float(r, "componentId").ok_or_else(|| format!("{}: row without componentId", q))? as usize;
+        nc.insert(id, c);
+        comps.entry(c).or_default().push(id);
+    }
+    canon(n, &nc, &comps).map_err(|e| format!("{}: {}", q, e))
+}
+
+/// the CALL algo.* procedures must return what the crate functions return on the projected view
+#[allow(clippy::too_many_arguments)]
+fn engine_checks(
+    out: &mut Out,
+    e: &Engine,
+    g: &G,
+    wcc: &Vec<Vec<usize>>,
+    scc: &Vec<Vec<usize>>,
+    tri: u64,
+    lcc: &HashMap<u64, f64>,
+    mst_total: Option<u64>,
+    pobs: &[PairObs],
+    bad: &mut Vec<String>,
+) {
+    let args = match (e.label, e.etype) {
+        (Some(l), Some(t)) => format!("'{}', '{}'", l, t),
+        (Some(l), None) => format!("'{}'", l),
+        _ => String::new(),
+    };
+    // wcc and lcc honour the label / type projection
+    match call_components(e.store, &format!("CALL algo.wcc({}) YIELD node, componentId", args), g.n) {
+        Ok(p) if &p == wcc => out.count("engine_wcc"),
+        Ok(p) => bad.push(format!("CALL algo.wcc({}) gave {:?}, the projected graph has {:?}", args, p, wcc)),
+        Err(x) => bad.push(x),
+    }
+    match call(e.store, &format!("CALL algo.lcc({}) YIELD node, coefficient", args)) {
+        Ok(b) => {
+            let mut seen = 0;
+            for r in &b.records {
+                match (rec_node(r, "node"), rec_float(r, "coefficient")) {
+                    (Some(id), Some(c)) if lcc.get(&id).map(|x| x.to_bits()) == Some(c.to_bits()) => seen += 1,
+                    (id, c) => bad.push(format!("CALL algo.lcc({}) row {:?} {:?} does not match the projected view", args, id, c)),
+                }
+            }
+            if seen != g.n {
+                bad.push(format!("CALL algo.lcc({}) returned {} matching rows for {} nodes", args, seen, g.n));
+            }
+            out.count("engine_lcc");
+        }
+        Err(x) => bad.push(x),
+    }
+    if e.label.is_some() || e.etype.is_some() {
+        return;
+    }
+    // procedures that always work on the whole graph
+    match call_components(e.store, "CALL algo.scc() YIELD node, componentId", g.n) {
+        Ok(p) if &p == scc => out.count("engine_scc"),
+        Ok(p) => bad.push(format!("CALL algo.scc() gave {:?}, expected {:?}", p, scc)),
+        Err(x) => bad.push(x),
+    }
+    match call(e.store, "CALL algo.triangleCount() YIELD triangles") {
+        Ok(b) => match b.records.first().and_then(|r| rec_float(r, "triangles")) {
+            Some(t) if t as u64 == tri => out.count("engine_triangles"),
+            t => bad.push(format!("CALL algo.triangleCount() gave {:?}, expected {}", t, tri)),
+        },
+        Err(x) => bad.push(x),
+    }
+    if let Some(prop) = e.prop {
+        match call(e.store, &format!("CALL algo.mst('{}') YIELD total_weight", prop)) {
+            Ok(b) => match b.records.first().and_then(|r| rec_float(r, "total_weight")) {
+                Some(t) if Some(t as u64) == mst_total && t.fract() == 0.0 => out.count("engine_mst"),
+                t => bad.push(format!("CALL algo.mst('{}') gave {:?}, expected {:?}", prop, t, mst_total)),
+            },
+            Err(x) => bad.push(x),
+        }
+        for p in pobs {
+            let (sid, tid) = (node_id(p.s), node_id(p.t));
+            // max flow: "no flow" (same node) is reported as 0
+            match call(e.store, &format!("CALL algo.maxFlow({}, {}, '{}') YIELD max_flow", sid, tid, prop)) {
+                Ok(b) => match b.records.first().and_then(|r| rec_float(r, "max_flow")) {
+                    Some(f) if f as u64 == p.flow.unwrap_or(0) && f.fract() == 0.0 => out.count("engine_maxflow"),
+                    f => bad.push(format!("CALL algo.maxFlow({},{}) gave {:?}, expected {:?}", p.s, p.t, f, p.flow)),
+                },
+                Err(x) => bad.push(x),
+            }
+            for (q, want, name) in [
+                (format!("CALL algo.weightedPath({}, {}, '{}') YIELD path, cost", sid, tid, prop), &p.dij, "weightedPath"),
+                (format!("CALL algo.shortestPath({}, {}) YIELD path, cost", sid, tid), &p.bfs, "shortestPath"),
+            ] {
+                match call(e.store, &q) {
+                    Ok(b) => {
+                        let got: Option<(Vec<usize>, u64)> = b.records.first().and_then(|r| {
+                            let cost = rec_float(r, "cost")?;
+                            let path = match r.get("path").and_then(|v| v.as_property()) {
+                                Some(samyama::graph::PropertyValue::Array(a)) => {
+                                    a.iter().map(|x| x.as_integer().map(|i| idx_of(i as u64)).unwrap_or(usize::MAX)).collect()
+                                }
+                                _ => return None,
+                            };
+                            Some((path, cost as u64))
+                        });
+                        if &got == want {
+                            out.count(&format!("engine_{}", name));
+                        } else {
+                            bad.push(format!("CALL algo.{}({},{}) gave {:?}, the crate function gave {:?}", name, p.s, p.t, got, want));
+                        }
+                    }
+                    Err(x) => bad.push(x),
+                }
+            }
+        }
+    }
+}
+
+const ELABELS: [&str; 2] = ["A", "B"];
+const ETYPES: [&str; 2] = ["R", "S"];
+
+/// one graph in a GraphStore with labels, relationship types and a weight property (Integer,
+/// Float or absent = 1), checked under three projections
+fn engine_case(out: &mut Out, r: &mut Rng) {
+    let n = r.range(2, 6) as usize;
+    let m = r.range(1, 10) as usize;
+    let labels: Vec<usize> = (0..n).map(|_| r.below(2) as usize).collect();
+    // (source, target, weight, type, how the weight is stored: 0 Integer, 1 Float, 2 absent)
+    let mut edges: Vec<(usize, usize, u64, usize, u8)> = Vec::new();
+    for _ in 0..m {
+        let u = r.below(n as u64) as usize;
+        let v = r.below(n as u64) as usize;
+        let kind = r.below(5);
+        let (w, k) = if kind == 0 { (1, 2u8) } else { (*r.pick(&[1u64, 2, 3, 5, 7]), (kind % 2) as u8) };
+        edges.push((u, v, w, r.below(2) as usize, k));
+    }
+    edges.sort_by_key(|e| e.0); // stable: creation order grouped by source, as G.out is
+    let mut store = samyama::graph::GraphStore::new();
+    let ids: Vec<u64> = (0..n).map(|i| store.create_node(ELABELS[labels[i]]).as_u64()).collect();
+    for &(u, v, w, ty, k) in &edges {
+        let e = match store.create_edge(samyama::graph::NodeId::new(ids[u]), samyama::graph::NodeId::new(ids[v]), ETYPES[ty]) {
+            Ok(e) => e,
+            Err(_) => return,
+        };
+        match k {
+            0 => store.set_edge_property_sparse(e, "w", samyama::graph::PropertyValue::Integer(w as i64)),
+            1 => store.set_edge_property_sparse(e, "w", samyama::graph::PropertyValue::Float(w as f64)),
+            _ => {}
+        }
+    }
+    let l0 = r.below(2) as usize;
+    let t0 = r.below(2) as usize;
+    for (label, etype, prop) in [(None, None, Some("w")), (Some(l0), None, None), (Some(l0), Some(t0), None)] {
+        let eng = Engine { store: &store, label: label.map(|l| ELABELS[l]), etype: etype.map(|t| ETYPES[t]), prop };
+        // the node order of the projection is the view's; the node SET and the edges are ours
+        let view = samyama::algo::build_view(&store, eng.label, eng.etype, eng.prop);
+        let mut want: Vec<u64> = (0..n).filter(|&i| label.map_or(true, |l| labels[i] == l)).map(|i| ids[i]).collect();
+        want.sort();
+        let mut got = view.index_to_node.clone();
+        got.sort();
+        let tag = format!("engine label={:?} type={:?} weight={:?}", eng.label, eng.etype, eng.prop);
+        if got != want {
+            let human = format!("{} nodes={:?} edges={:?}", tag, labels, edges);
+            let i = out.case("(0, [], [], [], 0, [], [], 0, [], [])".to_string(), human.clone(), false);
+            out.fail(i, &human, &format!("build_view selected nodes {:?}, nodes with the label are {:?}", got, want), None);
+            continue;
+        }
+        let order: Vec<u64> = view.index_to_node.clone();
+        let pos = |id: u64| order.iter().position(|x| *x == id);
+        let mut outl: Vec<Vec<(usize, u64)>> = vec![Vec::new(); order.len()];
+        for &(u, v, w, ty, _) in &edges {
+            if etype.map_or(true, |t| t == ty) {
+                if let (Some(a), Some(b)) = (pos(ids[u]), pos(ids[v])) {
+                    outl[a].push((b, if prop.is_some() { w } else { 1 }));
+                }
+            }
+        }
+        let g = G { n: order.len(), out: outl, weighted: prop.is_some() };
+        IDS.with(|t| *t.borrow_mut() = Some(order.clone()));
+        let pairs = if label.is_none() { all_pairs(g.n) } else { vec![] };
+        run_graph_on(out, &g, &pairs, true, &tag, Some(&eng));
+        IDS.with(|t| *t.borrow_mut() = None);
+        out.count("engine_projections");
+        if g.n < n || g.edges().len() < edges.len() {
+            out.count("engine_projection_drops_something");
+        }
     }
 }
 
@@ -680,7 +911,10 @@ fn main() {
                 1..3 nodes, all weight assignments from {1,2,5} for n<=2 without self-loops and sampled weights otherwise \
                 (both orders of a parallel pair occur); thorough adds sampled 3-node graphs with self-loops, sampled \
                 4-node structures and random graphs of 5..8 nodes to the Coq-evaluated set, every (source,target) for \
-                n<=4 and 8 sampled pairs above. Rust-only (brute-force references, no Coq case): random graphs of \
+                n<=4 and 8 sampled pairs above; plus graphs of 2..6 nodes built in a GraphStore with two labels, two \
+                relationship types and a weight property (Integer / Float / absent), each checked under the projections \
+                (all, all, weight), (label), (label, type): build_view's view against our own projection, and every CALL \
+                algo.* procedure against the crate function on that view. Rust-only (brute-force references, no Coq case): random graphs of \
                 20..300 nodes and one of 1200 nodes (parallel paths of count_triangles/lcc). Non-trivial = has an edge; \
                 distinct by case text."
         .to_string();
@@ -783,6 +1017,11 @@ fn main() {
             pairs.push((r.below(n as u64) as usize, r.below(n as u64) as usize));
         }
         run_graph(&mut out, &g, &pairs, true, "rand");
+    }
+    // ---- CALL algo.* through the query engine on stores with labels / types / weights
+    let ne = if args.thorough { 500 } else { 40 };
+    for _ in 0..ne {
+        engine_case(&mut out, &mut r);
     }
     // ---- Rust-only larger graphs
     let nl = if args.thorough { 120 } else { 12 };
